@@ -42,6 +42,10 @@ type Field struct {
 	// badArgs are the arguments removed by sortArgs because the field does
 	// not declare them.
 	badArgs []*ArgValue
+
+	// written are the arguments as the request wrote them. Args is formed
+	// from them again when the field is evaluated in another container type.
+	written []*ArgValue
 }
 
 // String representation of the instance.
@@ -118,6 +122,11 @@ func (f *Field) getArg(name string) (av *ArgValue) {
 }
 
 func (f *Field) sortArgs() (errors []error) {
+	if f.written == nil {
+		f.written = f.Args
+	}
+	f.Args = f.written
+	f.badArgs = nil
 	if 0 < len(f.Args) {
 		if ot, _ := f.ConType.(*Object); ot != nil {
 			if fd := ot.fields.get(f.Name); fd != nil {
